@@ -4,6 +4,9 @@
 import json, subprocess
 
 BUILT = {
+ "C17": ("exploration", "model of databases vs the real session under the real 100 ms flush timer: reads after every successful USE, and recovery + read of a copy of the data directory at every restart boundary (clean / os.Exit / SIGKILL)",
+         "Held on the scripts explored (USE other/same/missing/other-case, CREATE DATABASE new/existing, SHOW, DDL/DML, pauses, restarts over 2-4 databases).",
+         "names compared case-insensitively; abrupt restarts follow a pause of > 2 ticks"),
  "C09": ("exploration", "recover() + logical step budgets (scanner characters, token-list reads, enforced from hooks) + allocation bound around the session's tokenise+parse path, in child processes",
          "Exhaustive over all token sequences up to length 2 (quick) / 3 (thorough) of the full vocabulary and longer ones over a reduced vocabulary; all byte and token prefixes of thousands of valid statements; mutations; quote and numeric pathology; random bytes; 10^5-deep nesting.",
          "budgets are far above what valid input uses (observed ratio reported); a wall-clock timeout alone is inconclusive"),
